@@ -133,6 +133,7 @@ func runC06(w *W) {
 	w.genBufferFill(judge)
 	w.genCarryThenNothing(judge)
 	w.genDenseSizes(judge)
+	w.genBackslashRuns(judge)
 	w.genSpaceInDense([]int{1500, 9000}, judge)
 	w.genAlignedPartial(10, 110, 3, judge)
 	w.genAlignedPartial(130, 180, 2, judge)
